@@ -487,6 +487,10 @@ class BaseParser:
                 provided[name] = value
 
             if excluded_keys and name in excluded_keys:
+                # already given (by position): the keyword is an unknown key, as field_first_parse treats it
+                add_value = self.parse_addition(key, value, context=context)
+                if not unprovided(add_value):
+                    addition[key] = add_value
                 continue
 
             attempted.add(name)
